@@ -67,3 +67,11 @@ pub fn start_default(which: &'static str, level: &'static str, tier: &str, seed:
         std::process::exit(0);
     });
 }
+
+/// Watchdog for a single-case replay: the case that does not return is the reproduced violation.
+pub fn start_replay() {
+    start(|sig, text, _args| {
+        println!("REPLAY-VIOLATION {} :: {}", sig, text);
+        std::process::exit(1);
+    });
+}
